@@ -27,6 +27,8 @@ impl WalCleaner {
     /// This should be called after segment flushes.
     pub fn cleanup_up_to(&self, keep_from_log_id: u64) {
         // Check if conservative mode is enabled
+        #[cfg(sneldb_verif)]
+        crate::verif::point("walclean.start");
         let conservative_mode = CONFIG.wal.conservative_mode;
 
         if conservative_mode {
@@ -77,6 +79,8 @@ impl WalCleaner {
                         if let Ok(id) = num.parse::<u64>() {
                             if id < keep_from_log_id {
                                 let path = entry.path();
+                                #[cfg(sneldb_verif)]
+                                crate::verif::point("walclean.before_delete");
                                 match std::fs::remove_file(&path) {
                                     Ok(_) => {
                                         info!(
